@@ -28,7 +28,10 @@ VARIABLES d,      \* definition
 vars == <<d, phase, chars, src, pos, out, done>>
 
 D == Defs[d]
-Sel == {i \in 1..Len(Defs) : Defs[i].accepted /\ Defs[i].hasGraph /\ Defs[i].refsOk /\ Len(Defs[i].chars) > 0}
+(* definitions with a pattern that matches the empty string must not have been accepted at all (C03 reports  *)
+(* them from the capture metadata); they are excluded here, the reference lexer makes no progress on them      *)
+Sel == {i \in 1..Len(Defs) : Defs[i].accepted /\ Defs[i].hasGraph /\ Defs[i].refsOk /\ Len(Defs[i].chars) > 0
+                             /\ \A k \in 1..Defs[i].nL : ~Defs[i].ref[k].nullable}
 
 Init == /\ d \in Sel
         /\ phase = "build" /\ chars = <<>> /\ src = <<>>
